@@ -79,6 +79,14 @@ static std::string handle(const std::vector<std::string>& a) {
         TTEntry shown(e.getKey() ^ tt->contemptHash, e.getData());
         return showEntry(shown, (int)vToInt(a[2]));
     }
+    if (op == "busy" && n == 3) {
+        // what Search::negaScout does at depth >= 7 with a hit: tt.probe(key, ent); tt.setBusy(ent, ply)
+        TTEntry e;
+        tt->probe(vToU64(a[1]), e);
+        if (e.getType() == TType::T_EMPTY) return "miss";
+        tt->setBusy(e, (int)vToInt(a[2]));
+        return "ok";
+    }
     if (op == "gen" && n == 1) { tt->nextGeneration(); return "ok " + std::to_string((int)tt->generation); }
     if (op == "clear" && n == 1) { tt->clear(); return "ok"; }
     if (op == "contempt" && n == 2) { tt->setWhiteContempt((int)vToInt(a[1])); return "ok"; }
